@@ -278,6 +278,13 @@ def evaluate(seqs, cfg, res):
         if tx not in sel and out:
             F.append((f'select/{"coding-without-flag" if tx == TX_C else "noncoding-filtered-but-called"}',
                       dict(tx=tx, spurious=sorted(out)[:8])))
+            # the transcript was processed although it is not selected: still judge WHAT was written for it, so
+            # that this (known) selection defect cannot hide a different one
+            must2, may2, _ = tx_expected(seqs[tx], cl, canon, w2f)
+            for p in sorted(must2 - out):
+                F.append((_mech('missing', classify(p, seqs[tx], cl, canon, w2f)) + '/unselected-tx', dict(tx=tx, peptide=p)))
+            for p in sorted(out - may2):
+                F.append((_mech('spurious', classify_spurious(p, seqs[tx], cl, canon, w2f)) + '/unselected-tx', dict(tx=tx, peptide=p)))
         elif tx in sel and must and not out and not any(h.startswith(tx + '|') for h, _ in res['orfs']):
             F.append((f'select/{"coding" if tx == TX_C else "noncoding"}-selected-but-not-called',
                       dict(tx=tx, missing=sorted(must)[:8])))
@@ -355,7 +362,8 @@ def evaluate(seqs, cfg, res):
                     if base not in listed[tx][pe['orf']][2]:
                         F.append(('orf-fasta/peptide-not-in-attributed-orf',
                                   dict(tx=tx, peptide=p, orf=pe['orf'], orf_seq=listed[tx][pe['orf']][2])))
-    # --- documented ORF assignment (CLI help: `max` = the last ORF upstream of the peptide, `min` = the first,
+    # --- informational only (NOT part of property C08, which does not say which of several enclosing ORFs a
+    # peptide is attributed to; reported in the evidence file, never as a violation) --- ORF assignment (CLI help: `max` = the last ORF upstream of the peptide, `min` = the first,
     # most upstream one), checked where it is unambiguous: a product that begins with the start M of an ORF
     mode = cfg.get('orf', 'max')
     for tx in sel:
@@ -373,7 +381,7 @@ def evaluate(seqs, cfg, res):
                 want = {by_start.get(s0) for s0 in starts[p]}
                 have = {pe['orf'] for pe in entries}
                 if None not in want and not want <= have:
-                    F.append((f'orf-assignment/{mode}-not-as-documented',
+                    F.append((f'INFO:orf-assignment/{mode}-not-as-in-cli-help',
                               dict(tx=tx, peptide=p, attributed=sorted(have), documented=sorted(want))))
     return F, nontrivial
 
